@@ -136,8 +136,11 @@ def _config(rng, tier, focus):
             'fault_free': not any(enabled.values())}
 
 
-def generate(rng, seed, run, tier, focus='C01'):
+def generate(rng, seed, run, tier, focus='C01', xmode=False):
     cfg = _config(rng, tier, focus)
+    if xmode:
+        cfg['simset'] = False
+        cfg['xmode'] = True
     n_slots = cfg['n_slots']
     labels = []          # pool of [objs, props]
     shadow = [None] * n_slots   # (li, n, m, n_concepts)
@@ -1139,6 +1142,17 @@ class Live:
             rec.check(f'{prop}.bounded_termination', H['done'],
                       lambda: f'{H.get("what", H["kind"])} did not finish within {bound} further steps')
         rec.log('drained')
+        if self.cfg.get('xmode'):
+            from . import battery
+            for s, sl in enumerate(self.slots):
+                if sl is None:
+                    continue
+                for k, ctx in enumerate(sl.ctxs):
+                    for line in battery.full(ctx, limit=30, heavy=len(sl.fca.concepts()) <= 64):
+                        rec.log(f's{s}c{k} {line}')
+                for k, lt in enumerate(sl.lats):
+                    for line in battery.lattice_lines(lt[0], limit=30, heavy=len(sl.fca.concepts()) <= 64):
+                        rec.log(f's{s}l{k} {line}')
 
 
 def run_one(arg):
